@@ -242,6 +242,8 @@ impl GroupCommitQueue {
             return Ok(0);
         }
 
+        #[cfg(kahflane_turdb_verif)]
+        crate::verif_hooks::yield_point("gc.submit");
         let pending = {
             let mut state = self.state.lock();
             let batch_id = state.next_batch_id;
@@ -297,6 +299,8 @@ impl GroupCommitQueue {
         let start = Instant::now();
 
         while !pending.is_completed() {
+            #[cfg(kahflane_turdb_verif)]
+            crate::verif_hooks::yield_point("gc.wait.lock");
             let mut state = self.state.lock();
 
             if pending.is_completed() {
@@ -346,6 +350,8 @@ impl GroupCommitQueue {
     /// Take all pending commits for flushing
     /// Returns None if no commits are pending or flush is already in progress
     pub fn take_pending(&self) -> Option<Vec<std::sync::Arc<PendingCommit>>> {
+        #[cfg(kahflane_turdb_verif)]
+        crate::verif_hooks::yield_point("gc.take_pending");
         let mut state = self.state.lock();
 
         if state.pending.is_empty() {
@@ -363,9 +369,13 @@ impl GroupCommitQueue {
     pub fn complete_batch(&self, commits: &[std::sync::Arc<PendingCommit>]) {
         let batch_size = commits.len();
 
+        #[cfg(kahflane_turdb_verif)]
+        crate::verif_hooks::yield_point("gc.complete.mark");
         for commit in commits {
             commit.mark_completed();
         }
+        #[cfg(kahflane_turdb_verif)]
+        crate::verif_hooks::yield_point("gc.complete.clear_flag");
 
         self.stats.record_flush(batch_size);
 
@@ -378,9 +388,13 @@ impl GroupCommitQueue {
 
     /// Mark a batch of commits as failed
     pub fn fail_batch(&self, commits: &[std::sync::Arc<PendingCommit>], error: &str) {
+        #[cfg(kahflane_turdb_verif)]
+        crate::verif_hooks::yield_point("gc.fail.mark");
         for commit in commits {
             commit.mark_failed(error.to_string());
         }
+        #[cfg(kahflane_turdb_verif)]
+        crate::verif_hooks::yield_point("gc.fail.clear_flag");
 
         {
             let mut state = self.state.lock();
